@@ -154,6 +154,9 @@ def expressible(doc, fmt):
     if k == "flow":
         return fmt in ("docx", "odt", "html", "mhtml", "epub", "rtf") and constructs(doc) <= supports(fmt)
     if k == "deck":
+        if fmt == "ppt":
+            from .writers import ppt as wppt
+            return wppt.expressible(doc)
         return fmt in ("pptx", "odp", "odg")
     if k == "book":
         return fmt in ("xlsx", "ods", "xls")
@@ -180,6 +183,9 @@ def render(doc, fmt) -> bytes:
         if fmt == "rtf":
             return misc.write_rtf(doc)
     if k == "deck":
+        if fmt == "ppt":
+            from .writers import ppt as wppt
+            return wppt.write_ppt(doc)
         return {"pptx": wp.write_pptx, "odp": odf.write_odp, "odg": odf.write_odg}[fmt](doc)
     if k == "book":
         if fmt == "xls":
@@ -203,7 +209,7 @@ def render(doc, fmt) -> bytes:
 
 
 EXTRACTOR = {"docx": "read_docx", "odt": "read_odt", "html": "read_html", "mhtml": "read_mhtml", "epub": "read_epub",
-             "rtf": "read_rtf", "pptx": "read_pptx", "odp": "read_odp", "odg": "read_odg", "xlsx": "read_xlsx",
+             "rtf": "read_rtf", "pptx": "read_pptx", "ppt": "read_ppt", "odp": "read_odp", "odg": "read_odg", "xlsx": "read_xlsx",
              "ods": "read_ods", "odf": "read_odf", "xls": "read_xls", "pdf": "read_pdf", "txt": "read_plain_text", "md": "read_plain_text",
              "csv": "read_plain_text", "tsv": "read_plain_text", "json": "read_plain_text"}
 
